@@ -364,7 +364,12 @@ def main():
                serves_properties=[c['property_id'] for c in checks],
                kind_free_text='proxy-based symbolic execution of the real '
                               'Python functions over z3 terms; path-wise '
-                              'obligations discharged by z3 5.1'),
+                              'obligations discharged by z3 5.1; a sample '
+                              'of the proved obligations is re-decided by '
+                              'the z3 4.8.12 and cvc5 1.0.3 binaries from '
+                              'an SMT-LIB2 dump; C14 also interprets the '
+                              'clang JSON AST of the C++ kernel '
+                              '(harness/cxxsym.py)'),
       ],
       checks=checks,
       not_applicable=na,
